@@ -332,6 +332,7 @@ func emptyValueDropped(t, f string, r1, r2 config.ValidationResult) bool {
 	// every error that disappeared is about an empty / missing value (errors that
 	// only become visible once the empty entry is gone may appear in r2)
 	gone := 0
+	var emptyPrefixes, others []string
 	// indices inside messages shift when an earlier entry is dropped (token[1] -> token[0])
 	norm := func(e string) string { return idxRe.ReplaceAllString(e, "[]") }
 	in2 := map[string]int{}
@@ -346,13 +347,38 @@ func emptyValueDropped(t, f string, r1, r2 config.ValidationResult) bool {
 		switch {
 		case emptyErr.MatchString(e):
 			gone++
+			emptyPrefixes = append(emptyPrefixes, errPrefix(e))
 		case strings.Contains(e, "references unknown matcher"):
 			// consequence: a named matcher with an (empty-value) error is not registered
 		default:
+			others = append(others, e)
+		}
+	}
+	// other vanished errors must belong to the very directive that was dropped
+	// (e.g. `auth forward "" { timeout 0 }`: the block goes with its empty URL)
+	for _, e := range others {
+		ok := false
+		for _, p := range emptyPrefixes {
+			if p != "" && errPrefix(e) == p {
+				ok = true
+			}
+		}
+		if !ok {
 			return false
 		}
 	}
 	return gone > 0
+}
+
+// errPrefix: `route "/x" auth forward.url must not be empty` -> `route "/x" auth forward`.
+func errPrefix(e string) string {
+	if i := strings.Index(e, " must"); i > 0 {
+		e = e[:i]
+	}
+	if i := strings.LastIndexByte(e, '.'); i > 0 {
+		e = e[:i]
+	}
+	return e
 }
 
 var idxRe = regexp.MustCompile(`\[\d+\]`)
